@@ -37,7 +37,8 @@ def main(ctx):
     # sub-pixel precision: costs against the linearly interpolated right image
     cap = 120 if ctx.quick else 600
     sub = [dict(method='sad', subpix=2), dict(method='census', subpix=2), dict(method='ssd', subpix=2, H=3, W=4, dmin=0, dmax=1),
-           dict(method='sad', subpix=4, W=6, dmin=-2, dmax=1), dict(method='sad', subpix=2, ws=1, H=1, W=5)]
+           dict(method='sad', subpix=4, W=6, dmin=-2, dmax=1), dict(method='sad', subpix=2, ws=1, H=1, W=5),
+           dict(method='census', subpix=4, W=5, dmin=-1, dmax=0)]
     if not ctx.quick:
         sub += [dict(method='census', subpix=4, W=6, dmin=-1, dmax=1), dict(method='ssd', subpix=4, H=3, W=5, dmin=-1, dmax=0), dict(method='sad', subpix=4, ws=5, H=5, W=7, dmin=-1, dmax=1),
                 dict(method='sad', subpix=2, H=4, W=7, dmin=-3, dmax=3)]
